@@ -55,3 +55,41 @@ Fixpoint new_nodes (h : N) (ms : list (N * N)) : list (N * inode) :=
   end.
 Definition occurrences (n : N) (l : list N) : Z := Z.of_nat (length (filter (N.eqb n) l)).
 
+
+(** default-mode rule preparation of a template without explicit hydrogen atoms: what becomes of one template node *)
+Definition strip0 (a : inode) : inode :=
+  IN (set_hc (iG a) 0) (set_hc (iH a) 0) 0 (Some (match i_hp a with Some l => l | None => [] end)).
+Definition default_rc (tpl : its) : its := LG (map (fun p => (fst p, strip0 (snd p))) (gnodes tpl)) (gedges tpl).
+
+
+(** _explicit_h: reactant-minus-product hydrogen count of atom [n]; a connected component of the h_pairs relation can
+    be paired off when its donors (positive) have no more hydrogens to give than its recipients (negative) can take *)
+Definition sumF (G : N -> Z) (l : list N) : Z := fold_right (fun p acc => G p + acc) 0 l.
+Definition dl_of (T : its) (n : N) : Z := match label T n with Some a => delta_h a | None => 0 end.
+Definition comp_balancedb (T : its) (comp : list N) : bool :=
+  sumF (dl_of T) (filter (fun n => 0 <? dl_of T n) comp) <=? sumF (fun n => - dl_of T n) (filter (fun n => dl_of T n <? 0) comp).
+Definition pairs_okb (T : its) : bool := forallb (fun c => comp_balancedb T (sort_N c)) (components (pair_to_nodes T)).
+
+(** clause (c) as finite sets: a bond as (unordered atom pair, product-minus-reactant order); the changed bonds of an
+    ITS; the images under a match of the changed bonds of a rule *)
+Definition norm_pair (a b : N) : N * N := (N.min a b, N.max a b).
+Definition is_changed (e : N * N * iedge) : bool := negb (Z.eqb (eG (snd e)) (eH (snd e))).
+Definition bond_key (e : N * N * iedge) : (N * N) * Z := (norm_pair (fst (fst e)) (snd (fst e)), eH (snd e) - eG (snd e)).
+Definition changed_bonds (T : its) : list ((N * N) * Z) := map bond_key (filter is_changed (gedges T)).
+Definition image_key (m : mapping) (e : N * N * iedge) : list ((N * N) * Z) :=
+  match mget m (fst (fst e)), mget m (snd (fst e)) with
+  | Some hu, Some hv => [(norm_pair hu hv, eH (snd e) - eG (snd e))]
+  | _, _ => []
+  end.
+Definition image_changed_bonds (m : mapping) (rc : its) : list ((N * N) * Z) :=
+  flat_map (image_key m) (filter is_changed (gedges rc)).
+
+
+(** default-mode rule preparation, general templates: two nodes with the same id and the same tuples up to the hydrogen
+    count; keeping the nodes / edges that avoid a list of removed atoms *)
+Definition same_core (p q : N * inode) : Prop :=
+  fst p = fst q /\ set_hc (iG (snd p)) 0 = set_hc (iG (snd q)) 0 /\ set_hc (iH (snd p)) 0 = set_hc (iH (snd q)) 0.
+Definition keepn (removed : list N) (p : N * inode) : bool := negb (mem (fst p) removed).
+Definition keepe (removed : list N) (e : N * N * iedge) : bool :=
+  negb (mem (fst (fst e)) removed) && negb (mem (snd (fst e)) removed).
+
